@@ -903,10 +903,16 @@ class VizierServicer(vizier_service_pb2_grpc.VizierServiceServicer):
           m.metric_id: m.value for m in trial.final_measurement.metrics
       }
       trial_metric_ids = set(trial_metric_id_to_value.keys())
-      # Add trials ONLY if they succeeded and contain all supposed metrics.
+      # Add trials ONLY if they succeeded and contain all supposed metrics, each
+      # of them a number (a NaN is neither dominated nor dominating and would
+      # always be reported as optimal).
       if (
           trial.state == study_pb2.Trial.State.SUCCEEDED
           and required_metric_ids.issubset(trial_metric_ids)
+          and not any(
+              np.isnan(trial_metric_id_to_value[metric_id])
+              for metric_id in required_metric_ids
+          )
       ):
         objective_vector = []
         for metric_id, goal in metric_id_to_goal.items():
